@@ -4,6 +4,8 @@ package main
 // hypotheses) and solver racing.
 
 import (
+	"hash"
+	"crypto/sha256"
 	"bytes"
 	"context"
 	"fmt"
@@ -337,7 +339,8 @@ func (E *Engine) prepare2(hyps []*Term, goal *Term, hints map[string][]*Term) (g
 					per[bn][ht.String()] = ht
 					prio[bn] = append(prio[bn], ht.String())
 				}
-				for sn, sv := range skolems {
+				for _, sn := range sortedKeysT(skolems) {
+					sv := skolems[sn]
 					if hs := hints[baseName(bn)]; len(hs) > 0 && strings.HasPrefix(baseName(bn), "t") && len(baseName(bn)) == 2 {
 						break
 					}
@@ -618,7 +621,22 @@ func firstLines(s string, n int) string {
 const maxScript = 6000 * 1024
 
 // Discharge runs every query of every obligation.
+// scriptHash (GOVC_SCRIPT_HASH=1): a digest of every generated SMT script, to test that generation is deterministic
+var scriptHash hash.Hash
+var dumpN int
+
+func init() {
+	if os.Getenv("GOVC_SCRIPT_HASH") != "" {
+		scriptHash = sha256.New()
+	}
+}
+
 func (E *Engine) Discharge(par int) {
+	defer func() {
+		if scriptHash != nil {
+			fmt.Printf("script-hash %x\n", scriptHash.Sum(nil)[:8])
+		}
+	}()
 	type job struct {
 		o *Oblig
 		q *Query
@@ -684,6 +702,14 @@ func (E *Engine) Discharge(par int) {
 			}
 		}
 		j.q.Script = Script(append(ground, quant...), goal, true, j.q.Model)
+		if d := os.Getenv("GOVC_DUMP_DIR"); d != "" {
+			dumpN++
+			os.WriteFile(fmt.Sprintf("%s/q%05d.smt2", d, dumpN), []byte("; "+j.o.Name+" "+j.q.Path+"\n"+j.q.Script), 0o644)
+		}
+		if scriptHash != nil {
+			scriptHash.Write([]byte(j.o.Name))
+			scriptHash.Write([]byte(j.q.Script))
+		}
 		j.q.Hyps = nil // free memory
 	}
 	var wg sync.WaitGroup
